@@ -207,7 +207,8 @@ DRV_OP(OpRsParse, "rs.parse") {
     }
     if (a.value("gen", false)) {
       // print in both syntaxes, re-parse in the same syntax, compare (library == and dumps)
-      for (const auto target : { Syntax::MATH, Syntax::ASCII }) {
+      const bool asciiFirst = a.value("gen_first", std::string{ "MATH" }) == "ASCII";
+      for (const auto target : { asciiFirst ? Syntax::ASCII : Syntax::MATH, asciiFirst ? Syntax::MATH : Syntax::ASCII }) {
         json one = json::object();
         const auto gen = Generator::FromTree(parser.AST(), target);
         one["text"] = drv::PutBytes(gen);
